@@ -11,9 +11,11 @@ import (
 	"net"
 	"net/http"
 	"net/http/httptest"
+	"net/http/httputil"
 	"net/url"
 	"os"
 	"path/filepath"
+	"strings"
 	"sync"
 	"time"
 
@@ -45,6 +47,9 @@ type omniSched struct {
 	Partial bool `json:"partial"`
 	// NoneFirst lists the feeder-less entry before the polled logs whatever the schedule's hash says.
 	NoneFirst bool `json:"nonefirst"`
+	// Proxy (production binary only): the logs are reachable only through an egress proxy announced in the environment (HTTP_PROXY), as on
+	// hosts without direct access to the outside; their URLs carry host names only the proxy can resolve.
+	Proxy bool `json:"proxy"`
 }
 
 type omniEvent struct {
@@ -118,8 +123,8 @@ type omniSvc struct {
 // omniProdBin, when set, makes the service under observation the production binary instead of an in-process omniwitness.Main.
 var omniProdBin string
 
-func startOmniProd(w *world.World, yaml, dir, tag, db string) (*omniSvc, error) {
-	p, err := startProd(prodCfg{Bin: omniProdBin, Dir: dir, Tag: tag, Yaml: yaml, WitSKey: w.WitKey.SKey(), DB: db, Poll: omniInterval, Dist: omniDistURL})
+func startOmniProd(w *world.World, yaml, dir, tag, db string, env []string) (*omniSvc, error) {
+	p, err := startProd(prodCfg{Bin: omniProdBin, Dir: dir, Tag: tag, Yaml: yaml, WitSKey: w.WitKey.SKey(), DB: db, Poll: omniInterval, Dist: omniDistURL, Env: env})
 	if err != nil {
 		return nil, err
 	}
@@ -225,6 +230,19 @@ func execOmni(s omniSched, dir string, seed int64) ([]any, error) {
 			sv.Close()
 		}
 	}()
+	// an egress proxy: it alone knows where *.egress.verif.test lives (this machine); the binary learns about the proxy from its environment only
+	var prodEnv []string
+	viaProxy := s.Proxy && omniProdBin != ""
+	if viaProxy {
+		px := httptest.NewServer(&httputil.ReverseProxy{Director: func(r *http.Request) {
+			if h, port, err := net.SplitHostPort(r.URL.Host); err == nil && strings.HasSuffix(h, ".egress.verif.test") {
+				r.URL.Host = "127.0.0.1:" + port
+			}
+			r.URL.Scheme = "http"
+		}})
+		servers = append(servers, px)
+		prodEnv = []string{"HTTP_PROXY=" + px.URL, "http_proxy=" + px.URL, "NO_PROXY=", "no_proxy="}
+	}
 	for i, name := range p.Logs {
 		l := w.Logs[name]
 		sl := stublog.New(l.Origin, l.Key, l.Trees)
@@ -241,6 +259,9 @@ func execOmni(s omniSched, dir string, seed int64) ([]any, error) {
 		sv := httptest.NewServer(stublog.FrontEnd(h, front))
 		servers = append(servers, sv)
 		url := stublog.URLOf(sv.URL, front)
+		if viaProxy {
+			url = strings.Replace(url, "127.0.0.1", name+".egress.verif.test", 1)
+		}
 		if s.Types[i] == "tiles" {
 			url += "/"
 		}
@@ -290,7 +311,7 @@ func execOmni(s omniSched, dir string, seed int64) ([]any, error) {
 			if durable {
 				dbp = dbPath
 			}
-			return startOmniProd(w, yaml, dir, tag, dbp)
+			return startOmniProd(w, yaml, dir, tag, dbp, prodEnv)
 		}
 		return startOmni(w, pers)
 	}
